@@ -44,7 +44,7 @@ struct Stats { uint64_t states=0,transitions=0,traces=0; int depth_done=0; bool 
 static void bfs(const Config &c,int maxdepth,Stats &st,const std::function<bool()> &stop){ std::unordered_map<std::string,std::pair<std::vector<int>,std::vector<int> > > seen; std::deque<std::pair<std::string,int> > frontier; // canon, depth
 	RunResult r0=run_history(c,std::vector<int>()); st.traces++; if(!r0.ok){ vf::violation(c.label+":"+r0.sig,r0.what+" [history: <empty>, "+c.label+"]","\"config\":"+vf::jstr(c.label)+",\"history\":[]"); return; }
 	seen[r0.canon]=std::make_pair(std::vector<int>(),std::vector<int>()); frontier.push_back(std::make_pair(r0.canon,0)); st.states=1; int curdepth=0; bool capped=false;
-	while(!frontier.empty()){ std::pair<std::string,int> cur=frontier.front(); if(cur.second>=maxdepth){ capped=true; break; } if(cur.second>curdepth){ curdepth=cur.second; st.depth_done=curdepth; if(stop()){ capped=true; vf::C().exhaustive=false; break; } }
+	while(!frontier.empty()){ std::pair<std::string,int> cur=frontier.front(); if(cur.second>=maxdepth){ capped=true; break; } if(cur.second>curdepth){ curdepth=cur.second; st.depth_done=curdepth; } if(stop()){ capped=true; vf::C().exhaustive=false; break; }
 		frontier.pop_front(); std::pair<std::vector<int>,std::vector<int> > hs=seen[cur.first]; int variants= hs.first==hs.second?1:2;
 		for(int v=0;v<variants;v++){ std::vector<int> h= v?hs.second:hs.first; for(size_t op=0;op<c.ops.size();op++){ h.push_back(op); vf::announce(c.label+" "+hist_str(c,h)); RunResult r=run_history(c,h); st.transitions++; st.traces++; vf::eval();
 				if(!r.ok){ std::string hs2; for(size_t i=0;i<h.size();i++) hs2+=(i?",":"")+std::to_string(h[i]); vf::violation(c.label+":"+r.sig,r.what+" [history: "+hist_str(c,h)+", "+c.label+"]","\"config\":"+vf::jstr(c.label)+",\"history\":["+hs2+"],\"history_text\":"+vf::jstr(hist_str(c,h))); }
